@@ -56,7 +56,7 @@ def plan(ops, tps=1):
                 if m is not None:
                     dem = m
                 elif i < io:
-                    dem = Fraction((i + 1) * 20, tps) if tps != 1 else (i + 1) * 20
+                    dem = (i + 1) * 20 / tps if tps != 1 else (i + 1) * 20      # exact for tps in {2, 4}
                 else:
                     dem = r
                 done = (si == last and i == io + cpu - 1)
